@@ -124,6 +124,13 @@ func labelArg(args []value, i int) string {
 		if s, ok := args[i].(string); ok {
 			return s
 		}
+		if sy, ok := args[i].(*sym); ok {
+			t := sy.t
+			if len(t) > 300 {
+				t = t[:300] + "..."
+			}
+			return "<symbolic text> " + t
+		}
 	}
 	return "?"
 }
